@@ -47,6 +47,10 @@ func main() {
 			fmt.Println("unknown property", id)
 			os.Exit(2)
 		}
+		runTier, runSeed = *tier, seed
+		if runSeed == 0 {
+			runSeed = 1
+		}
 		rep := &Report{Property: id, Tier: *tier, Seed: seed, start: time.Now(), Extra: map[string]interface{}{}}
 		code := 0
 		func() {
